@@ -103,8 +103,10 @@ Theorem C05_wiring_invgamma : forall Gam a loc scale x, 0 < scale -> loc < x -> 
 Proof. exact wiring_invgamma. Qed.
 Print Assumptions C05_wiring_invgamma.
 
-(* ... and it is the law of loc + scale / G, G ~ Gamma(a, 1) (how the variates are generated): the distribution function of
-   that variable is 1 - F_G(scale/(x-loc)); its derivative is the documented density *)
+(* ... and it is the law of loc + scale / G, G ~ Gamma(a, 1) (a law-equivalent representation; the installed scipy 1.12 draws
+   invgamma by inversion of a uniform, which is C05_push_invgamma in Props/C05_push.v -- found in the third deepening round with
+   the twin-stream cells push/InverseGamma): the distribution function of that variable is 1 - F_G(scale/(x-loc)); its derivative
+   is the documented density *)
 Theorem C05_invgamma_generation : forall (F : R -> R) Gam a loc scale x,
   (forall g, is_derive F g (std_gamma_pdf Gam a g)) -> 0 < scale -> loc < x -> Gam <> 0 ->
   is_derive (fun t => 1 - F (scale / (t - loc))) x (cuqi_invgamma_pdf Gam a loc scale x).
